@@ -251,6 +251,12 @@ async fn run(mut s: Sim, mut rng: Rng, len: usize) -> Sim {
             98 => { // program-data look-alikes: loader-owned at a foreign address, or canonical bytes under another owner
                 let attacker = g.users[11].clone(); let fake = K::User(710 + rng.below(2));
                 let owner = if rng.chance(2, 3) { K::Loader } else { rng.pick(&[K::System, K::Rogue(1)]).clone() };
+                if rng.chance(1, 5) { // the program's own program-data account with the authority revoked (None), the old key's bytes still
+                                      // following the tag as the loader leaves them: the previous authority has no power any more
+                    s.forge_progdata_revoked(&attacker, &K::ProgData(b(&K::Rd)), &K::Loader).await;
+                    let ix = if rng.chance(1, 2) { s.rd_set_admin(&attacker, &attacker) } else { s.rd_migrate(&attacker) };
+                    s.op(tx(vec![ix])).await; continue;
+                }
                 s.forge_progdata(&attacker, &fake, &owner).await;
                 let ix = if rng.chance(1, 2) { s.rd_set_admin(&attacker, &attacker) } else { s.rd_migrate(&attacker) };
                 let ix = ix.with_key(0, &if rng.chance(3, 4) { fake } else { K::ProgData(b(&K::Passport)) });
@@ -317,6 +323,19 @@ async fn go(s: &mut Sim, rng: &mut Rng, g: &mut G, ix: crate::sim::Ix) -> bool {
             if let Some(pos) = f.metas.iter().position(|m| m.1) { f = f.with_key(pos, &attacker); }
             s.op(tx(vec![f])).await;
         }
+    }
+    if ix.term.contains("RDistributeRewards") && ix.metas.len() >= 8 && rng.chance(1, 3) {
+        // a ContributorRewards look-alike under another owner, naming the attacker as sole recipient, offered in place of the genuine one
+        if let K::RdContrib(svc) = ix.metas[2].0.clone() {
+            let attacker = g.users[11].clone(); let fake = K::User(720 + rng.below(2));
+            let owner = rng.pick(&[K::Rogue(2), K::System, K::Passport]).clone();
+            s.op(Op::CreateAta { payer: g.payer.clone(), owner: attacker.clone() }).await;
+            s.forge_contrib_lookalike(&svc, &attacker, &fake, &owner).await;
+            let f = ix.clone().with_key(2, &fake).with_key(7, &K::Ata(b(&attacker), b(&K::Mint)));
+            s.op(tx(vec![f])).await;
+        }
+        // one recipient's token account offered in two positions
+        if ix.metas.len() >= 9 { let a0 = ix.metas[7].0.clone(); s.op(tx(vec![ix.clone().with_key(8, &a0)])).await; }
     }
     if rng.chance(1, 15) { // a signer of the honest instruction replaced by another wallet that does sign
         if let Some(pos) = ix.metas.iter().position(|m| m.1) { let other = rng.pick(&g.users).clone(); let f = ix.clone().with_key(pos, &other); s.op(tx(vec![f])).await; }
